@@ -15,6 +15,7 @@
 package originium
 
 import (
+	"cmp"
 	"container/list"
 	"fmt"
 	"io"
@@ -88,7 +89,16 @@ func (lm *levelManager) recover() int64 {
 		return 0
 	}
 
-	slices.Sort(dbFiles)
+	// tables of a level are ordered by age, i.e. by numeric index: "0-10.db" is newer than "0-2.db"
+	// (names that do not parse are reported below)
+	slices.SortFunc(dbFiles, func(a, b string) int {
+		levelA, idxA, _ := parseFileName(a)
+		levelB, idxB, _ := parseFileName(b)
+		if c := cmp.Compare(levelA, levelB); c != 0 {
+			return c
+		}
+		return cmp.Compare(idxA, idxB)
+	})
 
 	var maxVersion int64
 
